@@ -50,6 +50,23 @@ func JudgeDecls(model []core_domain.CodeDataStruct, u Unit, pass string, skipped
 		if ds.Type != wantKind {
 			return fmt.Sprintf("%s pass: type %s.%s has kind %q, want %q", pass, u.Pkg, t.Name, ds.Type, wantKind)
 		}
+		// class-level annotations: names, as a multiset
+		var ga, wa []string
+		for _, a := range ds.Annotations {
+			ga = append(ga, a.Name)
+		}
+		for _, a := range t.Annotations {
+			n := strings.TrimPrefix(a, "@")
+			if k := strings.Index(n, "("); k >= 0 {
+				n = n[:k]
+			}
+			wa = append(wa, n)
+		}
+		sort.Strings(ga)
+		sort.Strings(wa)
+		if strings.Join(ga, ";") != strings.Join(wa, ";") {
+			return fmt.Sprintf("%s pass: type %s.%s has annotations %v, the declaration carries %v", pass, u.Pkg, t.Name, ga, wa)
+		}
 		// functions
 		direct := map[string][]Func{}
 		for _, f := range t.Funcs {
@@ -74,6 +91,16 @@ func JudgeDecls(model []core_domain.CodeDataStruct, u Unit, pass string, skipped
 			if t.DeepNames[n] > 0 {
 				skipped["func.nameAlsoDeclaredDeeper"]++
 				continue
+			}
+			if t.Kind == "interface" {
+				generic := false
+				for _, f := range direct[n] {
+					generic = generic || f.Generic
+				}
+				if generic {
+					skipped["func.genericInterfaceMethod"]++ // the quantifier names non-generic interface methods
+					continue
+				}
 			}
 			var gf, wf []string
 			for _, f := range gotBy[n] {
@@ -180,6 +207,10 @@ func JudgeCalls(model []core_domain.CodeDataStruct, u Unit, text string, skipped
 			if n != 1 {
 				continue // JudgeDecls reports it
 			}
+			if f.CallOutsideBody {
+				skipped["calls.invocationInParameterListOrModifiers"]++
+				continue
+			}
 			want := Calls(f.Body)
 			open := false
 			for _, c := range want {
@@ -198,29 +229,37 @@ func JudgeCalls(model []core_domain.CodeDataStruct, u Unit, text string, skipped
 				}
 			}
 			where := fmt.Sprintf("%s.%s.%s (line %d)", u.Pkg, t.Name, f.Name, f.Line)
-			// optional forms: matched where the model records something at their place, dropped otherwise
+			// optional forms (method references, array creations): an entry the model records at the place of
+			// one is accepted wherever it stands in the list (a method reference is recorded when the expression
+			// around it is entered, i.e. before calls written to its left); the others must be the written
+			// invocations and creations, in order
 			{
-				gi := 0
-				var g2 []core_domain.CodeCall
+				type at struct {
+					line, col int
+					name      string
+				}
+				optional := map[at]int{}
 				var kept []Call
 				for _, e := range want {
 					if e.Optional {
-						if gi < len(got) && got[gi].Position.StartLine == e.Line && (got[gi].FunctionName == e.Name || got[gi].NodeName == e.Name) {
-							skipped["calls.optionalFormRecorded"]++
-							gi++
-						} else {
-							skipped["calls.optionalFormNotRecorded"]++
-						}
-						continue
-					}
-					kept = append(kept, e)
-					if gi < len(got) {
-						g2 = append(g2, got[gi])
-						gi++
+						optional[at{e.Line, e.Col, e.Name}]++
+					} else {
+						kept = append(kept, e)
 					}
 				}
-				if gi < len(got) {
-					g2 = append(g2, got[gi:]...)
+				var g2 []core_domain.CodeCall
+				for _, g := range got {
+					name := g.FunctionName
+					if g.Type == "CreatorClass" {
+						name = g.NodeName
+					}
+					k := at{g.Position.StartLine, g.Position.StartLinePosition, name}
+					if optional[k] > 0 {
+						optional[k]--
+						skipped["calls.optionalFormRecorded"]++
+						continue
+					}
+					g2 = append(g2, g)
 				}
 				got, want = g2, kept
 			}
